@@ -110,7 +110,11 @@ func load() (*Verifier, error) {
 		return nil, err
 	}
 	applyLeanStamp(specs)
-	return &Verifier{prog: prog, specs: specs}, nil
+	v := &Verifier{prog: prog, specs: specs}
+	if os.Getenv("VERIF_NO_RENAME") == "" {
+		v.renameNotes = adaptContractsToRenames(prog, specs)
+	}
+	return v, nil
 }
 
 func cmdList() int {
